@@ -797,6 +797,7 @@ func (c *c02Ctx) bogusRevocation(d int) {
 		sec, _ := prod.AtIndex(h + 3 + uint64(c.r.Intn(3)))
 		bad.NextRevocationKey = input.ComputeCommitmentPoint(sec[:])
 	}
+	c.probe(rcv) // current durable state = baseline of the "nothing persisted" comparison
 	res := "ok"
 	func() {
 		defer c01Recover(&res)
